@@ -27,6 +27,7 @@ def run(run, model):
         h = loops.helper_of(model, ck, "POST")
         if h is not None:
             run.do(loops.verdict_rule, model, "C16.first-failure", h[0], h[1], h[2], 1)
+    run.do(meta.shared_member_rule, model, "C16.once-shared-member")
     run.minimum("C16.phases", 2)
     run.minimum("C16.inv-phases", 2)
     run.minimum("C16.append", 3)
